@@ -1321,6 +1321,21 @@ fn c14_mappings(seed: u64, tier: &str) -> Vec<Vec<u8>> {
         }
         v.push(t.into_bytes());
     }
+    // class counts at "buffer of 2^m bytes" boundaries (28-byte class records) and their multiples
+    for m in 11..=17u32 {
+        let f = (1usize << m) / 28;
+        for c in [f, f + 1, 2 * f, 3 * f] {
+            if c == 0 || c > 15_000 || (!thorough(tier) && m < 16 && c != f) {
+                continue;
+            }
+            let mut t = String::with_capacity(c * 20);
+            for i in 0..c {
+                t.push_str(&format!("o.C{} -> c{}:\n", i, i));
+            }
+            t.push_str("    void m() -> a\n");
+            v.push(t.into_bytes());
+        }
+    }
     // one class with very many distinct methods (collision-prone fingerprints, counter widths)
     {
         let n = if thorough(tier) { 400_000 } else { 150_000 };
@@ -1870,7 +1885,18 @@ pub fn oracle_c20(rng: &mut Rng, tier: &str) -> Report {
         let cbytes = proto::aligned_static(&proto::cur::write_cache(ms));
         let cache = ProguardCache::parse(cbytes).unwrap();
         let u = universe(&text);
-        let qs = query_universe(rng, &u, 4);
+        let mut qs = query_universe(rng, &u, 4);
+        if i < 3 {
+            // queries whose cost in stack depends on the input: answered alone on the main thread
+            // (8 MiB) and then from worker threads (2 MiB default)
+            qs.push(Query::Sig(format!("({}I)V", "[".repeat(20_000))));
+            qs.push(Query::Sig(format!("({})La;", "La/b;[J".repeat(30_000))));
+            let mut deep = String::from("a: top\n");
+            for _ in 0..20_000 {
+                deep.push_str("Caused by: a: x\n    at a.m(F:1)\n");
+            }
+            qs.push(Query::Txt(deep));
+        }
         let seq_m: Vec<String> = qs.iter().map(|q| q.run(&mapper)).collect();
         let seq_c: Vec<String> = qs.iter().map(|q| q.run(&cache)).collect();
         let nthreads = rng.range(2, 16);
